@@ -753,7 +753,11 @@ func (e *Enc) loopInvariants(li *loopInfo) []Clause {
 		}
 		*into = append(*into, x)
 	}
-	for _, c := range e.fc.LoopInv[li.ordinal] {
+	own := e.fc.LoopInv[li.ordinal]
+	if len(own) == 0 && e.inl == "" {
+		own = e.adoptInvariants(li, se)
+	}
+	for _, c := range own {
 		if try(c.Expr) {
 			out = append(out, c)
 			continue
@@ -786,6 +790,127 @@ func (e *Enc) loopInvariants(li *loopInfo) []Clause {
 		e.loopInvCache = map[*loopInfo][]Clause{}
 	}
 	e.loopInvCache[li] = out
+	return out
+}
+
+// adoptInvariants: a loop of this function that has no invariant of its own may be the loop of a helper that has
+// since been merged into this function by hand (the helper no longer exists, its contract is still in the contract
+// file, and this function is recorded as one of its callers). The helper's loop invariants are then tried for the
+// loop: its parameters are bound to the value of the same name, or else to the only parameter or local allocation of
+// this function that has the parameter's recorded type; conjuncts that speak about the helper's entry state (old) or
+// that do not evaluate are dropped. Invariants are proof artifacts that are checked on entry and on every back edge,
+// so adopting any candidate is sound; if what remains is too weak, a real obligation fails.
+func (e *Enc) adoptInvariants(li *loopInfo, se *specEnv) []Clause {
+	p := e.prog
+	p.loadSignatures()
+	me := p.funcKey(e.topFn)
+	// this function's loops without own invariants, by ordinal
+	var bare []int
+	for _, l := range e.loops {
+		if l.header.Parent() == e.topFn && len(e.fc.LoopInv[l.ordinal]) == 0 {
+			bare = append(bare, l.ordinal)
+		}
+	}
+	sort.Ints(bare)
+	idx := sort.SearchInts(bare, li.ordinal)
+	type cand struct {
+		fc  *FuncContract
+		sk  string
+		ord int
+	}
+	var cands []cand
+	var keys []string
+	for key := range p.cs.Funcs {
+		keys = append(keys, key)
+	}
+	sort.Strings(keys)
+	for _, key := range keys {
+		fc := p.cs.Funcs[key]
+		if fc.Variant != "" || p.funcs[key] != nil || len(fc.LoopInv) == 0 {
+			continue
+		}
+		sk := p.shortKey(key)
+		rs, ok := p.sigs[sk]
+		if !ok {
+			continue
+		}
+		called := false
+		for _, c := range rs.Callers {
+			called = called || c == me
+		}
+		if !called {
+			continue
+		}
+		var ords []int
+		for o := range fc.LoopInv {
+			ords = append(ords, o)
+		}
+		sort.Ints(ords)
+		for _, o := range ords {
+			cands = append(cands, cand{fc, sk, o})
+		}
+	}
+	if idx >= len(cands) {
+		return nil
+	}
+	c := cands[idx]
+	rs := p.sigs[c.sk]
+	qual := func(pk *types.Package) string { return pk.Path() }
+	for i, name := range rs.Params {
+		if i >= len(rs.ParamTypes) || name == "" || name == "_" {
+			continue
+		}
+		if _, err := se.evalIdent(name); err == nil {
+			continue
+		}
+		var found []ssa.Value
+		for _, prm := range e.topFn.Params {
+			if types.TypeString(prm.Type(), qual) == rs.ParamTypes[i] {
+				found = append(found, prm)
+			}
+		}
+		for _, b := range e.topFn.Blocks {
+			for _, ins := range b.Instrs {
+				if a, ok := ins.(*ssa.Alloc); ok && types.TypeString(a.Type(), qual) == rs.ParamTypes[i] {
+					found = append(found, a)
+				}
+			}
+		}
+		if len(found) == 1 {
+			if t, ok := e.vals[found[0]]; ok {
+				se.binds[name] = specVal{t: t, typ: found[0].Type()}
+				if e.extraBinds == nil {
+					e.extraBinds = map[string]specVal{}
+				}
+				e.extraBinds[name] = se.binds[name]
+			}
+		}
+	}
+	var out []Clause
+	var split func(x SExpr, into *[]SExpr)
+	split = func(x SExpr, into *[]SExpr) {
+		if b, ok := x.(*SBin); ok && b.Op == "&&" {
+			split(b.L, into)
+			split(b.R, into)
+			return
+		}
+		*into = append(*into, x)
+	}
+	for _, cl := range c.fc.LoopInv[c.ord] {
+		var parts []SExpr
+		split(cl.Expr, &parts)
+		for k, pt := range parts {
+			if strings.Contains(pt.String(), "old(") {
+				continue
+			}
+			n := cl
+			n.Expr = pt
+			n.Text = pt.String() + " (adopted from " + c.sk + ")"
+			n.Label = fmt.Sprintf("adopted%d.%d", len(out), k)
+			out = append(out, n)
+		}
+	}
+	e.abstracted[fmt.Sprintf("loop %d has no invariant of its own: the loop invariants of %s (a helper that no longer exists and was called from here) are tried for it", li.ordinal, c.sk)] = true
 	return out
 }
 
